@@ -1140,35 +1140,125 @@ mod c16 {
     }
 
     /// How a closed position (pnl, cost) of the spec is concretised
+    #[derive(Clone)]
     struct Plan {
         side: Side,
         qty: Decimal,
         price: Decimal,   // entry price: price * qty = cost
+        exit: Decimal,    // exit price (engine mode)
         pnl: Decimal,
         fee_in: Decimal,
         fee_out: Decimal,
         partial: bool,    // engine mode: reduce by half first, then close
+        /// engine mode: this position was opened by the crossing fill that closed the previous one
+        opened_by_flip: bool,
+        /// engine mode: the closing fill is over-sized by this quantity and FLIPS the position
+        /// (the leftover opens the next closed position of the same instrument)
+        flip_leftover: Option<Decimal>,
     }
-    fn plan(pnl: i64, cost: i64, var: Variant, step: u64) -> Plan {
-        let c = |salt, m| pick(var.salt, step, salt, m);
-        let qty = [Decimal::ONE, Decimal::TWO, Decimal::new(5, 1), Decimal::from(4)][c(1, 4) as usize];
-        let cost_d = scaled_dec(cost, var.e10);
-        let pnl_d = scaled_dec(pnl, var.e10);
-        let fee = if c(2, 3) == 0 { scaled_dec(1, var.e10 - 2) * Decimal::from(25) } else { Decimal::ZERO };
-        // exit prices must stay positive: a long cannot lose its whole cost, a short cannot gain it
-        let gross = pnl_d + fee + fee;
-        let (long_ok, short_ok) = (gross > -cost_d, gross < cost_d);
-        let side = if (c(3, 2) == 1 && long_ok) || !short_ok { Side::Buy } else { Side::Sell };
-        Plan { side, qty, price: cost_d / qty, pnl: pnl_d, fee_in: fee, fee_out: fee, partial: c(4, 3) == 0 }
+    fn opposite(s: Side) -> Side {
+        if s == Side::Buy { Side::Sell } else { Side::Buy }
+    }
+    /// realisable with zero fees: the exit price stays positive
+    fn realisable(side: Side, cost: Decimal, pnl: Decimal) -> bool {
+        if side == Side::Buy { cost + pnl > Decimal::ZERO } else { cost - pnl > Decimal::ZERO }
+    }
+
+    /// Plans every AddClosed event of a scenario. Consecutive closed positions of one instrument are
+    /// chained, where the numbers allow it exactly, through CROSSING fills: the fill that closes
+    /// position k is larger than the open quantity and opens position k+1 on the other side
+    /// (long -> short -> long ..., also repeatedly).
+    fn plan_scenario(evs: &[Value], var: Variant) -> Vec<Option<Plan>> {
+        let mut plans: Vec<Option<Plan>> = vec![None; evs.len()];
+        for (inst, _, _) in INSTR {
+            let idx: Vec<usize> = evs.iter().enumerate().filter(|(_, e)| e["a"] == "AddClosed" && e["k"] == inst).map(|(n, _)| n).collect();
+            let mut carry: Option<(Side, Decimal, Decimal)> = None; // side, qty, entry price of the open leftover
+            for (j, &n) in idx.iter().enumerate() {
+                let step = n as u64;
+                let c = |salt, m| pick(var.salt, step, salt, m);
+                let cost = scaled_dec(i(&evs[n], "y"), var.e10);
+                let pnl = scaled_dec(i(&evs[n], "x"), var.e10);
+                let next = idx.get(j + 1).map(|&m| (scaled_dec(i(&evs[m], "y"), var.e10), scaled_dec(i(&evs[m], "x"), var.e10)));
+                let fee = if c(2, 3) == 0 { scaled_dec(1, var.e10 - 2) * Decimal::from(25) } else { Decimal::ZERO };
+                let want_flip = c(5, 2) == 0;
+                let mut plan = match carry.take() {
+                    Some((side, qty, price)) => {
+                        // opened by the previous crossing fill: no entry fee; an exit fee only if the price stays positive
+                        let exact = |x: Decimal| x.checked_div(qty).is_some_and(|d| d * qty == x && d.scale() <= 14);
+                        let fee_out = if realisable(side, cost, pnl + fee) && exact(fee) { fee } else { Decimal::ZERO };
+                        Plan { side, qty, price, exit: Decimal::ZERO, pnl, fee_in: Decimal::ZERO, fee_out, partial: c(4, 3) == 0, opened_by_flip: true, flip_leftover: None }
+                    }
+                    None => {
+                        let qty = [Decimal::ONE, Decimal::TWO, Decimal::new(5, 1), Decimal::from(4)][c(1, 4) as usize];
+                        // exit prices must stay positive: a long cannot lose its whole cost, a short cannot gain it
+                        let gross = pnl + fee + fee;
+                        let (long_ok, short_ok) = (gross > -cost, gross < cost);
+                        let side = if (c(3, 2) == 1 && long_ok) || !short_ok { Side::Buy } else { Side::Sell };
+                        Plan { side, qty, price: cost / qty, exit: Decimal::ZERO, pnl, fee_in: fee, fee_out: fee, partial: c(4, 3) == 0, opened_by_flip: false, flip_leftover: None }
+                    }
+                };
+                // try to close this position by a crossing fill that opens the next one
+                if let (true, Some((cost2, pnl2))) = (want_flip, next) {
+                    let sides: Vec<Side> = if plan.opened_by_flip { vec![plan.side] } else if c(3, 2) == 1 { vec![Side::Buy, Side::Sell] } else { vec![Side::Sell, Side::Buy] };
+                    'search: for side in sides {
+                        if !realisable(opposite(side), cost2, pnl2) {
+                            continue;
+                        }
+                        // T = qty * exit price; the leftover q2 must satisfy q2 * exit = cost2 exactly
+                        let candidates: Vec<(Decimal, Decimal)> = if plan.opened_by_flip {
+                            let t = if side == Side::Buy { cost + pnl } else { cost - pnl };
+                            vec![(t, Decimal::ZERO)]
+                        } else {
+                            // an entry fee F >= 0 moves T onto a multiple of cost2 with an exact quotient
+                            [(1, 0), (2, 0), (5, 1), (4, 0), (25, 2), (125, 2), (8, 1), (25, 1), (4, 1)].iter().map(|(m, sc)| {
+                                let t = cost2 * Decimal::new(*m, *sc);
+                                (t, if side == Side::Buy { t - cost - pnl } else { cost - pnl - t })
+                            }).collect()
+                        };
+                        for (t, f) in candidates {
+                            if t <= Decimal::ZERO || f < Decimal::ZERO || f > cost + cost {
+                                continue;
+                            }
+                            let Some(q2) = (cost2 * plan.qty).checked_div(t) else { continue };
+                            let exit = t / plan.qty;
+                            if q2 * exit != cost2 || q2.scale() > 12 || exit.scale() > 12 {
+                                continue;
+                            }
+                            // the next position (quantity q2) must itself have an exact exit price
+                            if !pnl2.checked_div(q2).is_some_and(|d| d * q2 == pnl2 && d.scale() <= 14) {
+                                continue;
+                            }
+                            plan.side = side;
+                            plan.fee_in = f;
+                            plan.fee_out = Decimal::ZERO;
+                            plan.partial = false;
+                            plan.exit = exit;
+                            plan.flip_leftover = Some(q2);
+                            carry = Some((opposite(side), q2, exit));
+                            break 'search;
+                        }
+                    }
+                }
+                if plan.flip_leftover.is_none() {
+                    let gross = plan.pnl + plan.fee_in + plan.fee_out;
+                    plan.exit = if plan.side == Side::Buy { plan.price + gross / plan.qty } else { plan.price - gross / plan.qty };
+                }
+                plans[n] = Some(plan);
+            }
+        }
+        plans
     }
 
     trait Sut {
-        fn closed(&mut self, inst: usize, p: &Plan, step: u64, key_by_name: bool) -> Result<(), String>;
+        /// `t_exit`: exit time in seconds (direct / summary; the engine mode derives its fill times from `step`)
+        fn closed(&mut self, inst: usize, p: &Plan, step: u64, t_exit: i64, key_by_name: bool) -> Result<(), String>;
         fn balance(&mut self, asset: usize, total: Decimal, step: u64, key_by_name: bool) -> Result<(), String>;
         fn generate(&mut self) -> Result<Value, String>;
+        /// the session clock moves without an event (TradingSummaryGenerator::update_time_now)
+        fn tick(&mut self, _t: i64) {}
     }
 
-    fn exited<K>(instrument: K, p: &Plan, step: u64) -> PositionExited<QuoteAsset, K> {
+    fn exited<K>(instrument: K, p: &Plan, t_exit: i64) -> PositionExited<QuoteAsset, K> {
         PositionExited {
             instrument,
             side: p.side,
@@ -1177,8 +1267,8 @@ mod c16 {
             pnl_realised: p.pnl,
             fees_enter: AssetFees::quote_fees(p.fee_in),
             fees_exit: AssetFees::quote_fees(p.fee_out),
-            time_enter: time(2 * step as i64 + 1),
-            time_exit: time(2 * step as i64 + 2),
+            time_enter: time(t_exit - 1),
+            time_exit: time(t_exit),
             trades: vec![],
         }
     }
@@ -1192,8 +1282,8 @@ mod c16 {
         assets: Vec<TearSheetAssetGenerator>,
     }
     impl Sut for Direct {
-        fn closed(&mut self, inst: usize, p: &Plan, step: u64, _: bool) -> Result<(), String> {
-            let pos = exited(InstrumentIndex(inst), p, step);
+        fn closed(&mut self, inst: usize, p: &Plan, _step: u64, t_exit: i64, _: bool) -> Result<(), String> {
+            let pos = exited(InstrumentIndex(inst), p, t_exit);
             catch(|| self.inst[inst].update_from_position(&pos))
         }
         fn balance(&mut self, asset: usize, total: Decimal, step: u64, _: bool) -> Result<(), String> {
@@ -1218,14 +1308,17 @@ mod c16 {
         g: TradingSummaryGenerator,
     }
     impl Sut for Summary {
-        fn closed(&mut self, inst: usize, p: &Plan, step: u64, by_name: bool) -> Result<(), String> {
+        fn closed(&mut self, inst: usize, p: &Plan, _step: u64, t_exit: i64, by_name: bool) -> Result<(), String> {
             if by_name {
-                let pos = exited(InstrumentNameInternal::new(INSTR[inst].2), p, step);
+                let pos = exited(InstrumentNameInternal::new(INSTR[inst].2), p, t_exit);
                 catch(|| self.g.update_from_position(&pos))
             } else {
-                let pos = exited(InstrumentIndex(inst), p, step);
+                let pos = exited(InstrumentIndex(inst), p, t_exit);
                 catch(|| self.g.update_from_position(&pos))
             }
+        }
+        fn tick(&mut self, t: i64) {
+            self.g.update_time_now(time(t));
         }
         fn balance(&mut self, asset: usize, total: Decimal, step: u64, by_name: bool) -> Result<(), String> {
             if by_name {
@@ -1280,22 +1373,25 @@ mod c16 {
             }))
         }
     }
-    fn opposite(s: Side) -> Side {
-        if s == Side::Buy { Side::Sell } else { Side::Buy }
-    }
     impl Sut for EngineSut {
-        fn closed(&mut self, inst: usize, p: &Plan, step: u64, _: bool) -> Result<(), String> {
+        fn closed(&mut self, inst: usize, p: &Plan, step: u64, _t_exit: i64, _: bool) -> Result<(), String> {
             let t = 2 * step as i64;
-            // exit price such that the realised PnL (net of both fees) is the planned one
-            let gross = p.pnl + p.fee_in + p.fee_out;
-            let exit = if p.side == Side::Buy { p.price + gross / p.qty } else { p.price - gross / p.qty };
+            let exit = p.exit;
             if exit <= Decimal::ZERO {
                 return Err(format!("TOOL: plan has a non-positive exit price {exit}"));
             }
-            if self.fill(inst, p.side, p.price, p.qty, p.fee_in, t + 1)?.is_some() {
+            if p.opened_by_flip {
+                let open = self.e.state.instruments.instrument_index(&InstrumentIndex(inst)).position.current.as_ref();
+                if !open.is_some_and(|o| o.side == p.side && o.quantity_abs == p.qty && o.price_entry_average == p.price) {
+                    return Err(format!("TOOL: the crossing fill did not leave the planned open position (C02 domain): {open:?}"));
+                }
+            } else if self.fill(inst, p.side, p.price, p.qty, p.fee_in, t + 1)?.is_some() {
                 return Err("TOOL: the opening fill closed a position".into());
             }
-            let done = if p.partial {
+            let done = if let Some(q2) = p.flip_leftover {
+                // crossing fill: closes the position and opens the next one on the other side
+                self.fill(inst, opposite(p.side), exit, p.qty + q2, Decimal::ZERO, t + 2)?
+            } else if p.partial {
                 let half = p.qty / Decimal::TWO;
                 if self.fill(inst, opposite(p.side), exit, half, Decimal::ZERO, t + 1)?.is_some() {
                     return Err("TOOL: the reducing fill closed the position".into());
@@ -1348,31 +1444,56 @@ mod c16 {
         let scenarios = read_ndjson(args.req("scenarios"));
         let mut res = Results::new(args.req("out"));
         let mut tool_errors = vec![];
-        let mut arms = [0u64; 6]; // wins, losses, break-even, balances, generate, by-name keys
+        let mut arms = [0u64; 10]; // wins, losses, break-even, balances, generate, by-name keys, flips, equal exits, late exits, clock ticks
         for (n, scn) in scenarios.iter().enumerate() {
             let vi = vidx(scn, n);
             let var = variant_of(scn, seed, vi);
             let evs = scn["evs"].as_array().unwrap_or_else(|| usage("scenario without evs"));
             let mut sut = new_sut(&mode);
+            let plans = plan_scenario(evs, var);
             let mut failure = None;
             let mut pre = json!("initial");
+            let (mut last_t, mut inst_last) = (0i64, [0i64; 4]);
             for (k, e) in evs.iter().enumerate() {
                 res.steps += 1;
                 let step = k as u64;
                 let by_name = pick(var.salt, step, 9, 2) == 1;
+                let base_t = 2 * step as i64 + 2;
                 let mut shown = json!({"a": e["a"], "k": e["k"], "x": e["x"], "y": e["y"], "by_name": by_name});
                 let applied = match s(e, "a") {
                     "AddClosed" => {
                         let (pnl, cost) = (i(e, "x"), i(e, "y"));
                         arms[if pnl > 0 { 0 } else if pnl < 0 { 1 } else { 2 }] += 1;
                         arms[5] += by_name as u64;
-                        let p = plan(pnl, cost, var, step);
+                        let _ = cost;
+                        let p = plans[k].clone().expect("planned");
+                        let inst = instr_no(s(e, "k"));
+                        // exit times (direct / summary): the summary generator has ONE clock for all keys, so
+                        // equal exit times across instruments, exits reported late (behind another key's exit or
+                        // a balance update) and explicit clock updates are all legitimate
+                        let mut t_exit = base_t;
+                        match pick(var.salt, step, 11, 5) {
+                            2 if last_t > 0 => { t_exit = last_t.max(inst_last[inst]); arms[7] += (t_exit == last_t) as u64; }
+                            3 => { t_exit = inst_last[inst] + 1; arms[8] += (t_exit < last_t) as u64; }
+                            4 => { sut.tick(base_t + 1); arms[9] += 1; }
+                            _ => {}
+                        }
+                        if mode == "engine" {
+                            t_exit = base_t;
+                            arms[6] += p.flip_leftover.is_some() as u64;
+                        }
+                        inst_last[inst] = t_exit;
+                        last_t = last_t.max(t_exit);
                         shown["position"] = json!({"side": format!("{:?}", p.side), "price_entry_average": p.price.to_string(),
-                            "quantity_abs_max": p.qty.to_string(), "pnl_realised": p.pnl.to_string(), "fees": p.fee_in.to_string(), "partial_close": p.partial});
-                        sut.closed(instr_no(s(e, "k")), &p, step, by_name)
+                            "quantity_abs_max": p.qty.to_string(), "pnl_realised": p.pnl.to_string(), "fee_in": p.fee_in.to_string(),
+                            "fee_out": p.fee_out.to_string(), "exit_price": p.exit.to_string(), "partial_close": p.partial, "time_exit": t_exit,
+                            "opened_by_crossing_fill": p.opened_by_flip,
+                            "closed_by_crossing_fill_leaving": p.flip_leftover.map(|q| q.to_string())});
+                        sut.closed(inst, &p, step, t_exit, by_name)
                     }
                     "AddBalance" => {
                         arms[3] += 1;
+                        last_t = last_t.max(base_t);
                         sut.balance(asset_no(s(e, "k")), scaled_dec(i(e, "x"), var.e10), step, by_name)
                     }
                     "Generate" => {
@@ -1410,6 +1531,7 @@ mod c16 {
         let (scn, failed, steps) = (res.scenarios, res.failed, res.steps);
         res.out.finish();
         println!("{}", json!({"scenarios": scn, "failed": failed, "events": steps, "mode": mode, "tool_errors": tool_errors,
-            "arm_hits": {"win": arms[0], "loss": arms[1], "break_even": arms[2], "balance": arms[3], "generate_event": arms[4], "keyed_by_name": arms[5]}}));
+            "arm_hits": {"win": arms[0], "loss": arms[1], "break_even": arms[2], "balance": arms[3], "generate_event": arms[4], "keyed_by_name": arms[5],
+                         "crossing_fill": arms[6], "equal_exit_time": arms[7], "late_reported_exit": arms[8], "clock_update": arms[9]}}));
     }
 }
